@@ -18,8 +18,8 @@ func init() {
 		Technique: "guard census (dominance with boolean-phi expansion and disjunctive merge guards) on checkForResumption's `return true` and on decryptTicket; value-flow of the session state into/out of tickets and the session cache; ordering of policy inputs before the resumption decision",
 		Meta: core.Meta{
 			Level:       "other",
-			Explanation: "Decides: (a) in Conn.decryptTicket the HMAC (key = config.SessionTicketKey[16:32], input = the ticket from byte 0 up to the tag) is compared with the ticket's tag and the mismatch branch is taken before the AES key setup, the CTR decryption and sessionState.unmarshal; the ok result is unmarshal's result on the returned state; every slicing of the ticket is preceded by the length check; encryptTicket MACs the same span with the same key; (b) serverHandshakeState.sessionState is only ever nil, decryptTicket's state (its ok==false edge cannot reach `return true`), or a fresh state whose unmarshal of ServerSessionCache.Get's value succeeded after Get reported a hit; (c) `return true` of checkForResumption is reached only under: sessionState != nil; sessionState.vers <= clientHello.vers; mutualVersion(sessionState.vers) ok and equal to sessionState.vers; sessionState.cipherSuite equal to an element of clientHello.cipherSuites; hs.suite = tryCipherSuite(sessionState.cipherSuite, config.cipherSuites(), …) non-nil; (clientAuth != RequireAnyClientCert or session has certificates) and the same for RequireAndVerifyClientCert; (d) readClientHello sets c.clientAuth and the capability flags before calling checkForResumption and not after; (e) doResumeHandshake takes the master secret from the session state and the cipher suite from the validated hs.suite, re-verifies stored client certificates, and the connection version equals the session's version (guard c.vers == sessionState.vers or an assignment); (f) the state put into tickets and the session cache is (c.vers, hs.suite.id, hs.masterSecret, hs.certsFromClient). Not covered: key rotation histories, cache implementations (ServerSessionCache), ticket lifetime, the cryptographic strength of HMAC/AES.",
-			RuleText:    "obligations = each guarded operation and return of decryptTicket, the MAC spans and keys of decryptTicket/encryptTicket, each store to hs.sessionState, each required guard of checkForResumption's `return true`, each store of policy inputs in readClientHello relative to the resumption call, each field copied on resumption and on ticket/cache issuance",
+			Explanation: "Decides: (a) in Conn.decryptTicket the HMAC (key = config.SessionTicketKey[16:32], input = the ticket from byte 0 up to the tag) is compared with the ticket's tag and the mismatch branch is taken before the AES key setup, the CTR decryption and sessionState.unmarshal; the ok result is unmarshal's result on the returned state; every slicing of the ticket is preceded by the length check; encryptTicket MACs the same span with the same key; the ticket buffer is intact when it is authenticated: every instruction of decryptTicket that may write into (a re-slicing of) the ticket - element stores, copy/append into it, hash.Sum(b), stream/block cipher output, any callee not known to be read-only (in-module callees followed to depth 2) - lies behind the established MAC equality, and the recomputed HMAC is not produced into the ticket's storage (Sum(nil) or a fresh buffer), so the comparison never compares the buffer with itself; (b) serverHandshakeState.sessionState is only ever nil, decryptTicket's state (its ok==false edge cannot reach `return true`), or a fresh state whose unmarshal of ServerSessionCache.Get's value succeeded after Get reported a hit; (c) `return true` of checkForResumption is reached only under: sessionState != nil; sessionState.vers <= clientHello.vers; mutualVersion(sessionState.vers) ok and equal to sessionState.vers; sessionState.cipherSuite equal to an element of clientHello.cipherSuites; hs.suite = tryCipherSuite(sessionState.cipherSuite, config.cipherSuites(), …) non-nil; (clientAuth != RequireAnyClientCert or session has certificates) and the same for RequireAndVerifyClientCert; (d) readClientHello sets c.clientAuth and the capability flags before calling checkForResumption and not after; (e) doResumeHandshake takes the master secret from the session state and the cipher suite from the validated hs.suite, re-verifies stored client certificates, and the connection version equals the session's version (guard c.vers == sessionState.vers or an assignment); (f) the state put into tickets and the session cache is (c.vers, hs.suite.id, hs.masterSecret, hs.certsFromClient). Not covered: key rotation histories, cache implementations (ServerSessionCache), ticket lifetime, the cryptographic strength of HMAC/AES.",
+			RuleText:    "obligations = each guarded operation and return of decryptTicket, each may-write use of the ticket buffer in decryptTicket and the storage of the recomputed HMAC, the MAC spans and keys of decryptTicket/encryptTicket, each store to hs.sessionState, each required guard of checkForResumption's `return true`, each store of policy inputs in readClientHello relative to the resumption call, each field copied on resumption and on ticket/cache issuance",
 			Assumptions: []string{"crypto/hmac, crypto/subtle.ConstantTimeCompare, crypto/aes and crypto/cipher behave as documented", "ServerSessionCache.Get returns only values previously Put by this server"},
 		},
 		Run: runC44,
@@ -28,6 +28,9 @@ func init() {
 			{Name: "ticket-mac-skips-iv", File: "bfe_tls/ticket.go", Old: "	mac := hmac.New(sha256.New, c.config.SessionTicketKey[16:32])\n	mac.Write(encrypted[:len(encrypted)-sha256.Size])\n	expected := mac.Sum(nil)", New: "	mac := hmac.New(sha256.New, c.config.SessionTicketKey[16:32])\n	mac.Write(encrypted[aes.BlockSize : len(encrypted)-sha256.Size])\n	expected := mac.Sum(nil)", Expect: "ticket-mac-span"},
 			{Name: "ticket-unmarshal-result-dropped", File: "bfe_tls/ticket.go", Old: "	ok := state.unmarshal(plaintext)\n	return state, ok", New: "	state.unmarshal(plaintext)\n	return state, true", Expect: "ticket-return"},
 			{Name: "ticket-length-check-weakened", File: "bfe_tls/ticket.go", Old: "	if len(encrypted) < aes.BlockSize+sha256.Size {\n		return nil, false\n	}\n\n	iv := encrypted[:aes.BlockSize]\n	macBytes := encrypted[len(encrypted)-sha256.Size:]\n\n	mac := hmac.New(sha256.New, c.config.SessionTicketKey[16:32])\n	mac.Write(encrypted[:len(encrypted)-sha256.Size])\n	expected", New: "	if len(encrypted) < aes.BlockSize {\n		return nil, false\n	}\n\n	iv := encrypted[:aes.BlockSize]\n	macBytes := encrypted[len(encrypted)-sha256.Size:]\n\n	mac := hmac.New(sha256.New, c.config.SessionTicketKey[16:32])\n	mac.Write(encrypted[:len(encrypted)-sha256.Size])\n	expected", Expect: "ticket-length"},
+			{Name: "ticket-tag-overwritten-before-compare", File: "bfe_tls/ticket.go", Old: "	expected := mac.Sum(nil)\n", New: "	expected := mac.Sum(nil)\n	copy(macBytes, expected)\n", Expect: "ticket-intact|decryptTicket:copy"},
+			{Name: "ticket-mac-summed-into-ticket", File: "bfe_tls/ticket.go", Old: "	expected := mac.Sum(nil)\n", New: "	expected := mac.Sum(encrypted[:0])\n", Expect: "ticket-intact|decryptTicket:computed-mac"},
+			{Name: "silent-mac-into-fresh-buffer", Silent: true, File: "bfe_tls/ticket.go", Old: "	expected := mac.Sum(nil)\n", New: "	expected := mac.Sum(make([]byte, 0, sha256.Size))\n"},
 			{Name: "ticket-failure-ignored", File: "bfe_tls/handshake_server.go", Old: "		if hs.sessionState, ok = c.decryptTicket(hs.clientHello.sessionTicket); !ok {\n			return false\n		}", New: "		if hs.sessionState, ok = c.decryptTicket(hs.clientHello.sessionTicket); !ok {\n			state.TlsHandshakeCheckResumeSessionCache.Inc(1)\n		}", Expect: "session-source"},
 			{Name: "cache-unmarshal-ignored", File: "bfe_tls/handshake_server.go", Old: "			if ok := candidateSession.unmarshal(sessionParam); !ok {\n				return false\n			}", New: "			candidateSession.unmarshal(sessionParam)", Expect: "session-source"},
 			{Name: "session-version-above-client", File: "bfe_tls/handshake_server.go", Old: "	if hs.sessionState == nil || hs.sessionState.vers > hs.clientHello.vers {", New: "	if hs.sessionState == nil {", Expect: "resume-guard|checkForResumption:vers-le-client"},
@@ -37,7 +40,7 @@ func init() {
 			{Name: "server-suite-check-dropped", File: "bfe_tls/handshake_server.go", Old: "		hs.ellipticOk, hs.ecdsaOk, hs.chachaOk, hs.useRC4)\n	if hs.suite == nil {\n		return false\n	}\n\n	sessionHasClientCerts", New: "		hs.ellipticOk, hs.ecdsaOk, hs.chachaOk, hs.useRC4)\n\n	sessionHasClientCerts", Expect: "resume-guard|checkForResumption:suite-enabled"},
 			{Name: "require-and-verify-not-enforced", File: "bfe_tls/handshake_server.go", Old: "	needClientCerts := c.clientAuth == RequireAnyClientCert || c.clientAuth == RequireAndVerifyClientCert\n", New: "	needClientCerts := c.clientAuth == RequireAnyClientCert\n", Expect: "resume-guard|checkForResumption:client-cert:RequireAndVerifyClientCert"},
 			{Name: "client-cert-condition-inverted", File: "bfe_tls/handshake_server.go", Old: "	if needClientCerts && !sessionHasClientCerts {\n		return false\n	}", New: "	if needClientCerts && sessionHasClientCerts {\n		return false\n	}", Expect: "resume-guard|checkForResumption:client-cert"},
-			{Name: "client-auth-set-after-resumption", File: "bfe_tls/handshake_server.go", Old: "	if rule != nil && rule.ClientAuth {\n		c.clientAuth = RequireAndVerifyClientCert\n		c.clientCAs = rule.ClientCAs\n		c.clientCAName = rule.ClientCAName\n		c.clientCRLPool = rule.ClientCRLPool\n	}\n\n	// check whether chacha20-poly1305 is enabled for current connection\n	if rule != nil {\n		hs.chachaOk = rule.Chacha20\n	}\n\n	if hs.checkForResumption() {\n		return true, nil\n	}\n", New: "	// check whether chacha20-poly1305 is enabled for current connection\n	if rule != nil {\n		hs.chachaOk = rule.Chacha20\n	}\n\n	if hs.checkForResumption() {\n		return true, nil\n	}\n	if rule != nil && rule.ClientAuth {\n		c.clientAuth = RequireAndVerifyClientCert\n		c.clientCAs = rule.ClientCAs\n		c.clientCAName = rule.ClientCAName\n		c.clientCRLPool = rule.ClientCRLPool\n	}\n", Expect: "policy-before-resume"},
+			{Name: "client-auth-set-after-resumption", File: "bfe_tls/handshake_server.go", Old: "	if rule != nil && rule.ClientAuth {\n		c.clientAuth = RequireAndVerifyClientCert\n		c.clientCAs = rule.ClientCAs\n		c.clientCAName = rule.ClientCAName\n		c.clientCRLPool = rule.ClientCRLPool\n	}\n\n	// check whether chacha20-poly1305 is enabled for current connection\n	if rule != nil {\n		hs.chachaOk = rule.Chacha20\n	}\n\n	// See RFC 7507: refuse an inappropriate fallback before deciding on\n	// resumption, otherwise a resumable hello bypasses the check.\n	for _, id := range hs.clientHello.cipherSuites {\n		if id == TLS_FALLBACK_SCSV {\n			// The client is doing a fallback connection.\n			if hs.clientHello.vers < c.config.maxVersion() {\n				c.sendAlert(alertInappropriateFallback)\n				return false, errors.New(\"tls: client using inppropriate protocol fallback\")\n			}\n			break\n		}\n	}\n\n	if hs.checkForResumption() {\n		return true, nil\n	}\n", New: "	// check whether chacha20-poly1305 is enabled for current connection\n	if rule != nil {\n		hs.chachaOk = rule.Chacha20\n	}\n\n	// See RFC 7507: refuse an inappropriate fallback before deciding on\n	// resumption, otherwise a resumable hello bypasses the check.\n	for _, id := range hs.clientHello.cipherSuites {\n		if id == TLS_FALLBACK_SCSV {\n			// The client is doing a fallback connection.\n			if hs.clientHello.vers < c.config.maxVersion() {\n				c.sendAlert(alertInappropriateFallback)\n				return false, errors.New(\"tls: client using inppropriate protocol fallback\")\n			}\n			break\n		}\n	}\n\n	if hs.checkForResumption() {\n		return true, nil\n	}\n	if rule != nil && rule.ClientAuth {\n		c.clientAuth = RequireAndVerifyClientCert\n		c.clientCAs = rule.ClientCAs\n		c.clientCAName = rule.ClientCAName\n		c.clientCRLPool = rule.ClientCRLPool\n	}\n", Expect: "policy-before-resume"},
 			{Name: "resumed-master-secret-fresh", File: "bfe_tls/handshake_server.go", Old: "	hs.masterSecret = hs.sessionState.masterSecret\n", New: "	hs.masterSecret = hs.clientHello.random\n", Expect: "resume-copy"},
 			{Name: "ticket-stores-client-version", File: "bfe_tls/handshake_server.go", Old: "	state := sessionState{\n		vers:         c.vers,", New: "	state := sessionState{\n		vers:         hs.clientHello.vers,", Expect: "issue-state"},
 			{Name: "silent-guard-extracted", Silent: true, File: "bfe_tls/handshake_server.go", Old: "	if hs.sessionState == nil || hs.sessionState.vers > hs.clientHello.vers {\n		return false\n	}", New: "	if hs.sessionState == nil {\n		return false\n	}\n	sessVers := hs.sessionState.vers\n	if !(sessVers <= hs.clientHello.vers) {\n		state.TlsHandshakeCheckResumeSessionCache.Inc(0)\n		return false\n	}"},
@@ -106,7 +109,7 @@ func c44Ticket(c *core.Ctx) {
 		return lo, hi, true
 	}
 	// the MAC-equal fact
-	var hmacNew *ssa.Call
+	var hmacNew, sumCall *ssa.Call
 	var tag *ssa.Slice
 	macOK := func(f tlsFact) bool {
 		check := func(call *ssa.Call) bool {
@@ -117,6 +120,7 @@ func c44Ticket(c *core.Ctx) {
 				if h := c44IsHMACSum(pr[0]); h != nil {
 					if s := isEncSlice(pr[1]); s != nil {
 						hmacNew, tag = h, s
+						sumCall, _ = core.StripConv(pr[0]).(*ssa.Call)
 						return true
 					}
 				}
@@ -163,6 +167,8 @@ func c44Ticket(c *core.Ctx) {
 			"decryptTicket performs "+kind+" although equality of the ticket's HMAC tag and the recomputed HMAC was not established: unauthenticated ticket bytes are decrypted/parsed; facts: "+tlsFactStrs(in.Block()))
 	}
 	c.Min("ticket-mac-first", 3)
+	// the ticket bytes are not modified before they are authenticated
+	c44TicketIntact(c, dt, enc, macOK, func() *ssa.Call { return sumCall })
 	// returns
 	n := 0
 	for _, r := range core.Returns(dt) {
@@ -597,4 +603,110 @@ func c44Copy(c *core.Ctx, fns []*ssa.Function) {
 		}
 	}
 	c.Min("issue-state", 8)
+}
+
+// c44FromTicket: v is the ticket parameter or a re-slicing of it (through phis).
+func c44FromTicket(v ssa.Value, enc *ssa.Parameter, seen map[ssa.Value]bool) bool {
+	v = core.StripConv(v)
+	if seen[v] {
+		return false
+	}
+	seen[v] = true
+	if tlsIsParam(v, enc) {
+		return true
+	}
+	switch x := v.(type) {
+	case *ssa.Slice:
+		return c44FromTicket(x.X, enc, seen)
+	case *ssa.Phi:
+		for _, e := range x.Edges {
+			if c44FromTicket(e, enc, seen) {
+				return true
+			}
+		}
+	}
+	return false
+}
+
+// c44ReadOnlyCallees take byte slices without modifying them.
+var c44ReadOnlyCallees = []string{"crypto/subtle.ConstantTimeCompare", "crypto/hmac.Equal", "bytes.Equal", "bytes.Compare", "builtin:len", "builtin:cap"}
+
+// c44MayWrite lists the instructions of fn that may modify the bytes of the
+// slice parameter p: element stores, copy/append into it, and calls that
+// receive (a re-slicing of) it in a position that is not known to be
+// read-only. io.Writer.Write / hash.Hash.Write never modify their argument (the
+// io.Writer contract); hash.Hash.Sum(b) appends to b and therefore writes into
+// b's backing array; in-module callees are followed (depth 2).
+func c44MayWrite(fn *ssa.Function, p *ssa.Parameter, depth int) (sites []ssa.Instruction, what []string) {
+	from := func(v ssa.Value) bool { return c44FromTicket(v, p, map[ssa.Value]bool{}) }
+	add := func(in ssa.Instruction, w string) { sites, what = append(sites, in), append(what, w) }
+	for _, in := range tlsInstrs(fn) {
+		switch x := in.(type) {
+		case *ssa.Store:
+			if ia, ok := x.Addr.(*ssa.IndexAddr); ok && from(ia.X) {
+				add(in, "element-store")
+			}
+		case ssa.CallInstruction:
+			cc := x.Common()
+			key := core.CalleeKey(cc)
+			n0 := len(sites)
+			for i, a := range cc.Args {
+				if len(sites) > n0 {
+					break // one site per instruction
+				}
+				if _, isSlice := a.Type().Underlying().(*types.Slice); !isSlice || !from(a) {
+					continue
+				}
+				switch {
+				case key == "builtin:copy" || key == "builtin:append":
+					if i == 0 {
+						add(in, strings.TrimPrefix(key, "builtin:"))
+					}
+				case core.CallIs(cc, c44ReadOnlyCallees...):
+				case cc.IsInvoke() && cc.Method.Name() == "Write":
+				case cc.IsInvoke():
+					add(in, cc.Method.Name())
+				default:
+					cal := cc.StaticCallee()
+					// static calls: Args[i] binds Params[i] (the receiver is #0 in both)
+					if cal != nil && cal.Blocks != nil && core.FuncPkgRel(cal) != "" && depth < 2 && i < len(cal.Params) {
+						if inner, _ := c44MayWrite(cal, cal.Params[i], depth+1); len(inner) == 0 {
+							continue
+						}
+					}
+					add(in, strings.TrimPrefix(key, tlsPkg+"."))
+				}
+			}
+		}
+	}
+	return sites, what
+}
+
+// c44TicketIntact: decryptTicket compares the tag carried in the ticket with a
+// freshly computed HMAC. That comparison only authenticates the ticket if the
+// two operands have separate storage and the ticket bytes are still the ones
+// received: every instruction that may write into the ticket buffer must lie
+// behind the established MAC equality, and the computed HMAC must not be
+// produced into (a re-slicing of) the ticket.
+func c44TicketIntact(c *core.Ctx, dt *ssa.Function, enc *ssa.Parameter, macOK func(tlsFact) bool, sum func() *ssa.Call) {
+	if enc == nil {
+		c.Missing(tlsPkg + ".Conn.decryptTicket parameter encrypted")
+		return
+	}
+	sites, what := c44MayWrite(dt, enc, 0)
+	ord := map[string]int{}
+	for i, in := range sites {
+		ord[what[i]]++
+		c.Check("ticket-intact", fmt.Sprintf("decryptTicket:%s#%d", what[i], ord[what[i]]), in.Pos(), tlsDomGuarded(in.Block(), macOK),
+			"decryptTicket lets "+what[i]+" write into the ticket buffer before the ticket's HMAC tag was found equal to the recomputed HMAC: the bytes that are compared (or MACed) are no longer the bytes received, so the comparison does not authenticate the ticket")
+	}
+	sc := sum()
+	ok, got := false, "<no HMAC Sum reaches the comparison>"
+	if sc != nil && len(sc.Call.Args) == 1 {
+		got = core.Render(sc.Call.Args[0])
+		ok = !c44FromTicket(sc.Call.Args[0], enc, map[ssa.Value]bool{})
+	}
+	c.Check("ticket-intact", "decryptTicket:computed-mac", dt.Pos(), ok,
+		"the expected HMAC is produced with Sum("+got+"): Sum appends to its argument, which shares storage with the received ticket, so the tag in the ticket is overwritten by the expected value and the comparison compares the buffer with itself")
+	c.Min("ticket-intact", 1)
 }
